@@ -141,7 +141,7 @@ class HashSerialisation(Target):
     assumptions = ["info shape: 3 keys, one nested dictionary with 2 keys, one list with 2 strings; every insertion order"]
 
     def setup(self, c):
-        vals = {k: c.str(k) for k in ('executable', 'image', 'f.a', 'f.b', 'x', 'y')}
+        vals = {k: c.str(k, sample='sample-' + k) for k in ('executable', 'image', 'f.a', 'f.b', 'x', 'y')}
         top = [('executable', vals['executable']), ('image', vals['image']), ('files', None), ('args', None)]
         order = list(itertools.permutations(range(4)))[c.choice('top_order', 24)]
         inner_swap = c.choice('inner_order', 2)
